@@ -110,7 +110,13 @@ def eval_case(c):
     K = 10 ** rng.uniform(10, 12, nr) * (1 + 1j * rng.uniform(0, 0.05, nr))
     if c['elastic']:
         y, mu, K = y.real.astype(complex), mu.real.astype(complex), K.real.astype(complex)
+    ins = {'potential': U, 'potential_dtheta': Ut, 'potential_dphi': Up, 'potential_d2theta': Utt, 'potential_d2phi': Upp, 'potential_dtheta_dphi': Utp,
+           'radial_solutions': y, 'longitude': lon, 'colatitude': col, 'time': tt, 'radius': r, 'shear_moduli': mu, 'bulk_moduli': K}
+    snap = {k_: np.array(v_, copy=True) for k_, v_ in ins.items()}
     strain, stress = calculate_strain_stress(U, Ut, Up, Utt, Upp, Utp, y, lon, col, tt, r, mu, K, freq, l)
+    for k_, v_ in ins.items():
+        if not np.array_equal(v_, snap[k_]):
+            V('input-array-modified', f'calculate_strain_stress changed the caller\'s {k_} array')
     cnt['calls'] += 1
     npts = nr * nlon * ncol * nt
     cnt['grid_points'] += npts
@@ -141,7 +147,10 @@ def eval_case(c):
         worst[nm] = e_
         if e_ > 1e-11:
             V('radial-traction-' + nm.split(' ')[0], f'{nm} violated by {e_:.3e} of max|sigma| ({potdesc}, l={l})')
+    st_snap, sn_snap = stress.copy(), strain.copy()
     h = calculate_volumetric_heating(stress, strain)
+    if not (np.array_equal(stress, st_snap) and np.array_equal(strain, sn_snap)):
+        V('input-array-modified', 'calculate_volumetric_heating changed the stress / strain tensors passed by the caller')
     signed = sum((stress[k].imag * strain[k].real - stress[k].real * strain[k].imag) * (1 if k < 3 else 2) for k in range(6))
     hs = float(np.max(np.abs(stress)) * np.max(np.abs(strain)))
     if np.iscomplexobj(h) or h.shape != strain.shape[1:]:
